@@ -11,7 +11,7 @@ NEEDS_CLI = True
 RULE = ("op td.hash on accepted C08-style documents with exactly one violation injected at a random position (inside nested structs/arrays): "
         "every width 8..256 x the six boundary values (-2^(N-1)-1, -2^(N-1), 2^(N-1)-1, 2^(N-1), 2^N-1, 2^N) x every spelling (JSON int where it fits, "
         "float where exact, decimal string, hex string, +, negative string) for intN and uintN; bytesN lengths N-1, N, N+1; fixed array sizes +-1; declared sizes from 2^31 to beyond 2^64 with short values; "
-        "missing / extra member; undefined type (also where no value reaches it: behind empty arrays, 7 malformed/undefined names x 9 shapes); wrong JSON kind; a random sample of the cases is re-run through every sub-command that reaches the same code (vlib/routes.py); non-trivial = distinct document with an injected boundary value or violation; "
+        "missing / extra member; undefined type (also where no value reaches it: behind empty arrays, 7 malformed/undefined names x 9 shapes); wrong JSON kind (also for the self-referencing members of recursive types, at depth 0 and deeper); a random sample of the cases is re-run through every sub-command that reaches the same code (vlib/routes.py); non-trivial = distinct document with an injected boundary value or violation; "
         "judge = executable conformance relation of Spec.Eip712 (exact mathematical value of every literal)")
 EXHAUSTIVE_SWEEPS = {"quick": ["32 widths x 6 boundaries x {uint,int} x spellings", "bytes1..32 x {N-1,N,N+1}"],
                      "thorough": ["32 widths x 6 boundaries x {uint,int} x spellings", "bytes1..32 x {N-1,N,N+1}"]}
@@ -70,6 +70,23 @@ def gen(rng, tier):
             else:
                 d = doc_for(t, w, 0)
             cases.append(Case("td.hash " + hx(tdgen.dumps(d)), tags=("wrong-kind",), meta={"token": str(w) if isinstance(w, Raw) else None}))
+    # wrong kinds for struct-typed members of self-referential and mutually recursive types (linked list, tree, pair):
+    # null / number / string / array / boolean where an object or an array of objects is declared, at depth 0 and deeper
+    J2 = tdgen.types_json
+    rec_shapes = [
+        ({"Node": [("v", "uint8"), ("next", "Node[]")]}, "Node", lambda w: {"v": 1, "next": w}),
+        ({"Node": [("v", "uint8"), ("next", "Node[]")]}, "Node", lambda w: {"v": 1, "next": [{"v": 2, "next": w}]}),
+        ({"Tree": [("kids", "Tree[]"), ("twin", "Tree[2][]")]}, "Tree", lambda w: {"kids": [], "twin": w}),
+        ({"Tree": [("kids", "Tree[]"), ("twin", "Tree[2][]")]}, "Tree", lambda w: {"kids": [{"kids": w, "twin": []}], "twin": []}),
+        ({"Pair": [("halves", "Pair[0]"), ("n", "uint8")]}, "Pair", lambda w: {"halves": w, "n": 1}),
+        ({"A": [("b", "B[]")], "B": [("a", "A[]"), ("x", "bool")]}, "A", lambda w: {"b": [{"a": w, "x": True}]}),
+        ({"A": [("b", "B[]")], "B": [("a", "A[]"), ("x", "bool")]}, "A", lambda w: {"b": w}),
+        ({"L": [("self", "L[1][]"), ("s", "string")]}, "L", lambda w: {"self": [w], "s": ""}),
+    ]
+    for types, prim, mk in rec_shapes:
+        for w in [None, 0, 1, "", "0x", True, False, {}, {"v": 1}, [None], [[None]], [0], ["x"], Raw("1e2"), []]:
+            d = {"types": J2(types, [("name", "string")]), "primaryType": prim, "domain": {"name": "d"}, "message": mk(w)}
+            cases.append(Case("td.hash " + hx(tdgen.dumps(d)), tags=("wrong-kind", "recursive-type"), meta={"token": str(w) if isinstance(w, Raw) else None}))
     # fixed-size arrays: every length 0..N+2 for N in {1,2,3,5}, several element types and nesting positions
     for N in (1, 2, 3, 5):
         for inner, val in (("uint8", 1), ("string", "s"), ("bool", True), ("bytes2", "0xabcd")):
